@@ -137,6 +137,12 @@ def work(seed):
 EXTRA = [
     ("break_outside_loop", 'print "@@RUN@@"\nx = 1\nbreak\n'),
     ("continue_outside_loop", 'print "@@RUN@@"\nx = 1\ncontinue\n'),
+    # a function body is not inside the loop its literal is written in
+    ("break_in_closure_inside_while", 'print "@@RUN@@"\ni = 0\nwhile i < 2 {\n  f = fn() {\n    break\n  }\n  f()\n  i = i + 1\n}\n'),
+    ("continue_in_closure_inside_from", 'print "@@RUN@@"\nfrom 0 to 2, k {\n  f = fn() {\n    if k == 0 {\n      continue\n    }\n  }\n  f()\n}\n'),
+    ("break_in_method_of_class_inside_loop", 'print "@@RUN@@"\ni = 0\nwhile i < 1 {\n  class Kb {\n    fn m(self) {\n      break\n    }\n  }\n  i = i + 1\n}\n'),
+    ("break_in_if_in_function_without_loop", 'print "@@RUN@@"\nf = fn(a: int) {\n  if a > 0 {\n    break\n  }\n}\nf(1)\n'),
+    ("break_after_loop_ended", 'print "@@RUN@@"\nwhile false {\n}\nif true {\n  break\n}\n'),
     ("missing_return_path", 'print "@@RUN@@"\nf = fn(a: int) -> int {\n  if a > 1 {\n    return 1\n  }\n}\nprint f(1)\n'),
     ("missing_return_entirely", 'print "@@RUN@@"\nf = fn(a: int) -> int {\n  print a\n}\nprint f(1)\n'),
     ("void_function_returns_value", 'print "@@RUN@@"\nf = fn(a: int) {\n  return a\n}\nf(1)\n'),
